@@ -4,7 +4,7 @@ CONSTANTS
   RawAlphabet = {"a"}
   RawMaxLen = 1
   LineAlphabet <- N4
-  LineMaxLen = 8
+  LineMaxLen = 7
 SPECIFICATION NSpec
 INVARIANT TypeOK
 INVARIANT Tiles
